@@ -10,6 +10,8 @@ import (
 	"os"
 	"os/exec"
 	"path/filepath"
+	"strings"
+	"sync"
 	"testing"
 	"time"
 
@@ -96,6 +98,20 @@ func checkC19(c c19Case) string {
 		for _, f := range writerFormats {
 			if !bytes.Equal(got[f], ref[f]) {
 				return fmt.Sprintf("%s output differs between two writes of the same list (repetition %d)\n--- first ---\n%s\n--- then ---\n%s", f, rep, clip(string(ref[f]), 900), clip(string(got[f]), 900))
+			}
+		}
+	}
+	// 1b. what the process read in between is none of a writer's business: documents of every format are read (TTML in
+	// languages the library has a name for and in others, under several spellings), then the list is written again
+	readAssortedDocuments()
+	{
+		got, msg := writeAllAt(c.Spec.build(), c19NowA, nil)
+		if msg != "" {
+			return msg
+		}
+		for _, f := range writerFormats {
+			if !bytes.Equal(got[f], ref[f]) {
+				return fmt.Sprintf("%s output of the same list differs once the process has read other documents in between (TTML in languages de, sv, kl, en, fr, EN, De; the repository's sample files)\n--- first ---\n%s\n--- then ---\n%s", f, clip(string(ref[f]), 900), clip(string(got[f]), 900))
 			}
 		}
 	}
@@ -190,6 +206,31 @@ func checkC19(c c19Case) string {
 	return ""
 }
 
+// readAssortedDocuments reads documents of every format, results dropped (see step 1b of checkC19).
+func readAssortedDocuments() {
+	for _, lang := range []string{"de", "sv", "kl", "en", "fr", "EN", "De", "english", "klingon", "zz-ZZ", ""} {
+		doc := `<tt xmlns="http://www.w3.org/ns/ttml" xml:lang="` + lang + `"><body><div><p begin="00:00:01.000" end="00:00:02.000">x</p></div></body></tt>`
+		_, _ = astisub.ReadFromTTML(strings.NewReader(doc))
+	}
+	c19GoldenOnce.Do(func() {
+		for _, f := range []string{"srt", "vtt", "ssa", "ttml", "stl"} {
+			for _, g := range goldenDocs(f) {
+				if len(g) <= 20000 {
+					c19Golden = append(c19Golden, [2][]byte{[]byte(f), g})
+				}
+			}
+		}
+	})
+	for _, g := range c19Golden {
+		_, _ = readFormat(string(g[0]), bytes.NewReader(g[1]), readOpts{})
+	}
+}
+
+var (
+	c19GoldenOnce sync.Once
+	c19Golden     [][2][]byte
+)
+
 // childHashes runs this test binary again (fresh map hash seeds) on a batch of cases.
 func c19RunChild(path string, order string) error {
 	cmd := exec.Command(os.Args[0], "-test.run", "^TestC19Child$", "-test.count", "1")
@@ -260,6 +301,13 @@ func c19Labels(g glSpec) (bool, []string) {
 func TestC19(t *testing.T) {
 	runWitnesses(t, "C19")
 	var batch []c19Case
+	// first of all, before this process has read or written anything else: lists in languages the library has no name
+	// for, or names differently
+	for k, lang := range []string{"de", "klingon", "sv", "english", "French", "kl", "en"} {
+		c := c19Case{Spec: glSpec{Meta: glMeta{Lang: lang, Title: "t"}, Cues: []glCue{{Start: 1000 * nsMs, End: 2000 * nsMs, JC: -1, VP: -1, Lines: []glLine{{Runs: []glRun{{Text: "x"}}}}}}}, Order: []int{k % 5, (k + 1) % 5, (k + 2) % 5, (k + 3) % 5, (k + 4) % 5}}
+		ev.Case(true, fmt.Sprintf("%v", c), "fixed-language-list")
+		verdict(t, "C19", "c19", c, checkC19)
+	}
 	rapidCheck(t, "C19/lists", tier(300, 20000), func(rt *rapid.T) {
 		c := c19Case{Spec: genGLRaw(rt), Order: genPerm(rt, 5, "order")}
 		nt, ls := c19Labels(c.Spec)
